@@ -170,7 +170,8 @@ func newWorld(r *ev.Run, mode string, caseIdx int, handles string, rng *rand.Ran
 		w.errors,
 		handleAllocator,
 		sort.Sort,
-		func(string) bool { return false },
+		// Names a-d are never hidden; routes_test.go uses "._h".
+		func(s string) bool { return strings.HasPrefix(s, "._") },
 		clock,
 		virtual.CaseSensitiveComponentNormalizer,
 		defaultAttributesSetter,
@@ -1470,9 +1471,13 @@ func (w *world) step() string {
 			}
 		case k < 56:
 			return w.opLink(m)
-		case k < 66:
+		case k < 63:
 			if d, n, m2 := w.pickEntry(); m2 != nil {
 				return w.opUnlink(d, n, m2)
+			}
+		case k < 66:
+			if d, n, m2 := w.pickRouteEntry(); m2 != nil {
+				return w.opRoute(d, n, m2)
 			}
 		case k < 69:
 			if d, n, m2 := w.pickEntry(); m2 != nil {
@@ -1606,14 +1611,15 @@ func runStepped(r *ev.Run, i int) {
 func TestCheck(t *testing.T) {
 	r := ev.Start("C16")
 	defer r.Finish()
-	r.SetRule("stepped cases: PRNG(seed, case) drives 30-150 operations (create/open with every share mask, close, link, unlink, rename-over, remove-all, write, set size, allocate, read, upload with 3 digest functions and CAS/pool faults, frozen open/read/close, stat digest, operations on files without references) on up to 4 files in 2 directories, alternating NFS and FUSE handle allocators; mutating calls issued while frozen readers exist and uploads issued while writers exist run in their own goroutine and are released by the driver. " +
+	r.SetRule("stepped cases: PRNG(seed, case) drives 30-150 operations (create/open with every share mask, close, link, unlink, rename-over, remove-all, entry removed by RemoveAll / replaced by a directory / removed with its parent directory / hidden entry removed by rmdir, write, set size, allocate, read, upload with 3 digest functions and CAS/pool faults, frozen open/read/close, stat digest, operations on files without references) on up to 4 files in 2 directories, alternating NFS and FUSE handle allocators; mutating calls issued while frozen readers exist and uploads issued while writers exist run in their own goroutine and are released by the driver. " +
 		"stress rounds: 6-12 goroutines mixing the same operations on 1-2 files with slow CAS reads. Non-trivial = hit at least one listed situation; distinct = distinct sha256 of the operation/result log.")
 	r.Assume("VirtualRead/VirtualWrite/VirtualAllocate/VirtualClose are only called with a matching open descriptor (API precondition of Leaf)")
 	r.Assume("the bounded wait for writers is best effort: an upload that does not wait is counted, not reported")
 	r.Assume("the instrumented pool file is the ground truth for the bytes of a file; FilePool handles are not thread-safe, so any two overlapping calls on one handle are reported")
 	floors := []string{"last-reference-dropped-by-unlink", "last-reference-dropped-by-close-after-unlink", "last-reference-dropped-by-close-frozen",
 		"unlinked-while-descriptor-open", "writer-blocked-by-frozen-reader", "upload-after-timeout-with-writer-open", "upload-waited-for-writers-to-close",
-		"last-reference-dropped-by-upload-finishing-last", "stale-file-operation", "link-of-unlinked-file-rejected", "failed-truncating-open", "failed-allocate", "stat-pool-read-failure", "failed-read", "link-counted-by-pool-backed-file", "upload-through-build-directory", "nfs-handle-of-unlinked-file-stale", "upload-cas-failure", "upload-after-content-change", "stress-round", "stress-upload-raced-writer"}
+		"last-reference-dropped-by-upload-finishing-last", "stale-file-operation", "link-of-unlinked-file-rejected", "failed-truncating-open", "failed-allocate", "stat-pool-read-failure", "failed-read", "link-counted-by-pool-backed-file", "upload-through-build-directory", "nfs-handle-of-unlinked-file-stale", "upload-cas-failure", "upload-after-content-change", "stress-round", "stress-upload-raced-writer",
+		"entry-remove-all", "entry-replaced-by-directory", "entry-overwritten-by-create-children", "entry-removed-with-parent-directory", "entry-hidden-entry-removed-with-directory"}
 	if rf := r.ReplayFile(); rf != "" {
 		// Re-run exactly the recorded case (stepped cases are
 		// deterministic up to goroutine scheduling; stress rounds are
